@@ -662,6 +662,9 @@ func runC12(c *fw.Ctx) {
 	})
 	// a native tree with one unsupported leaf is rejected; after the caller has repaired that leaf the very same map /
 	// slice instances must convert (nothing may be remembered from the failed attempt)
+	// values a mapping function hands back are converted when they are handed back: a function that reuses one scratch
+	// slice / map for all its results still gets one fresh container per result, each with the content of its moment
+	c.Cases("map-results-converted-when-returned", c.N(200, 20000), false, func(i int, r *rng.R) { c14Scratch(c, r) })
 	c.Cases("repair-after-rejection", c.N(40, 2000), false, func(i int, r *rng.R) {
 		t := spec.GenTree(r, spec.Opts{MaxDepth: r.Range(2, 4), MaxWidth: r.Range(2, 4), ScalarBias: 4})
 		nat := drive.Native(t)
